@@ -98,7 +98,7 @@ def define(h, upto=None, mod=None, names=None):
         base = names[-1] if names else "ASTNode"
         body = "\n".join(f"    {n}: {SHAPES[s][1]}" for n, s in h[li]) or "    pass"
         src = f"@dataclass(frozen=True)\nclass {cname}({base}):\n{body}\n"
-        exec(compile(src, f"<c12:{cname}>", "exec"), mod.__dict__)
+        exec(compile(src, f"<c12:{cname}>", "exec", dont_inherit=True), mod.__dict__)
         names.append(cname)
     return mod, names
 
